@@ -162,6 +162,47 @@ def run(ck):
         failing.append(({"first_fixture": a, "second_fixture": b, "seam": kid, "src": src, "pairs_failing_with_this_seam": len(l)},
                         "composition %s: the body of A;B is not equivalent to the reference fragments of A and B merged as MJML merges them" % kid))
     ck.cov["pairs_compared"] = len(idx)
+    # (3) three blocks: a block may depend on more than its immediate neighbour (flags handed from block to block)
+    okseam = lambda x, y: ("seam:%s|%s" % (x["last"], y["first"])) not in known and ("seam:%s|%s" % (x["last"], y["first"])) not in seam_bad
+    triples = []
+    tries = 0
+    while len(triples) < (250 if ck.quick else 6000) and tries < 200000 and cf:
+        tries += 1
+        a, b, c3 = ck.rng.choice(cf), ck.rng.choice(cf), ck.rng.choice(cf)
+        if okseam(a, b) and okseam(b, c3) and not re.search(r"</mj-text\s+>", a["inner"] + b["inner"] + c3["inner"]):
+            triples.append((a, b, c3))
+    # targeted: a block with special Outlook handling (background image, full width, hero, wrapper) between two ordinary ones
+    special = [f for f in cf if re.search(r"background-url|full-width|<mj-hero|<mj-wrapper", f["inner"])]
+    ordinary = [f for f in cf if f not in special]
+    for b in special:
+        for _ in range(2 if ck.quick else 10):
+            if not ordinary:
+                break
+            a, c3 = ck.rng.choice(ordinary), ck.rng.choice(ordinary + special)
+            if okseam(a, b) and okseam(b, c3):
+                triples.append((a, b, c3))
+    tsrcs = ["<mjml><mj-body>%s%s%s</mj-body></mjml>" % (a["inner"], b["inner"], c3["inner"]) for a, b, c3 in triples]
+    res3, dead3 = common.run_jobs(hb, "render", [{"id": i, "src": s_} for i, s_ in enumerate(tsrcs)])
+    reqs3, idx3 = [], []
+    for i, (a, b, c3) in enumerate(triples):
+        r = res3.get(i)
+        gb = vl.body_inner(r["html"]) if r and r.get("html") else None
+        if gb is None:
+            continue
+        want = merge_ref(merge_ref(a["ref"], b["ref"]), c3["ref"])
+        reqs3.append(("equiv", (("<div>" + unify(gb) + "</div>").encode(), ("<div>" + unify(want) + "</div>").encode())))
+        idx3.append(i)
+    out3 = vlib.model_run(mr, reqs3)
+    nbad3 = 0
+    for i, o in zip(idx3, out3):
+        a, b, c3 = triples[i]
+        ck.count("triple:%s|%s|%s" % (a["name"], b["name"], c3["name"]), True, tags=["composition-3"])
+        if o != "EQ":
+            nbad3 += 1
+            if nbad3 <= 2:
+                failing.append(({"fixtures": [a["name"], b["name"], c3["name"]], "src": tsrcs[i]},
+                                "composition of three blocks: the body of A;B;C is not equivalent to the merged reference fragments although both seams are at parity pairwise"))
+    ck.cov["triples_compared"] = len(idx3)
     ck.cov["exhaustive"] = not ck.quick
     ck.sample({"pair": [pairs[0][0]["name"], pairs[0][1]["name"]], "document": srcs[0][:300]})
     ck.cov["rule"] = ("(1) all 207 fixture pairs under the extracted comparator (exhaustive); (2) ordered pairs of the context-free fixtures at parity "
